@@ -15,10 +15,10 @@ import (
 )
 
 var (
-	bfSet     = []uint{2, 3, 4, 5, 7, 16, 64}
-	formats   = []ref.Format{ref.Binary, ref.V1}
-	cacheSet  = []string{"none", "big", "tiny"}
-	smallBFs  = []uint{2, 3, 4}
+	bfSet    = []uint{2, 3, 4, 5, 7, 16, 64}
+	formats  = []ref.Format{ref.Binary, ref.V1}
+	cacheSet = []string{"none", "big", "tiny"}
+	smallBFs = []uint{2, 3, 4}
 )
 
 // pickCfg draws a configuration. Registered-types codec only with v1marshaler
